@@ -15,6 +15,7 @@ fn main() {
         "c06" => props::c06::run(&args),
         "c13" => props::c13::run(&args),
         "c14" => props::c14::run(&args),
+        "c17" => props::c14s::run(&args),
         "c15" => props::c15::run(&args),
         "c16" => props::c16::run(&args),
         "c19" => props::c19::run(&args),
